@@ -652,6 +652,56 @@ func (r *c01Run) textToAst(p *pgProgram, id int, text, term string, perr error, 
 	r.sum.Cases[fmt.Sprint(tid)] = h
 }
 
+// c01StageCorpus: one fixed program per list method of the model's pool that takes a callback of two
+// or more parameters, a second list, or folds the list (number, compact, combine, combine3, combineN,
+// iir, iirCombine, cross, merge, minMax, min, max, mean, single); arguments l (list of ints with
+// repeated and unsorted values) and n (int).  The stage result is consumed by a fingerprint that
+// depends on every item and on the order, so a stage that calls its callback with the wrong
+// neighbour, the wrong index or the wrong argument order is seen by the model comparison.
+func c01StageCorpus() []*pgProgram {
+	li := func(vs ...int) *Tree {
+		t := &Tree{Kind: "list", Repr: "eager"}
+		for _, v := range vs {
+			t.Items = append(t.Items, c01Ti(v))
+		}
+		return t
+	}
+	tuples := [][]*Tree{c01Tup(li(1, 3, 2, 2, 5), c01Ti(2)), c01Tup(li(4, 0, 0, 7, 7, 1), c01Ti(-5)), c01Tup(li(6), c01Ti(3))}
+	id := pgNId
+	op := pgNOp
+	clo := pgNClo
+	l := func() *pgNode { return id("l") }
+	n := func() *pgNode { return id("n") }
+	fp := func(st *pgNode) *pgNode { // st.mapReduce(0, (s,v) -> s*3+v)
+		return pgNMethod("method", st, "mapReduce", pgNInt(0), clo([]string{"s", "v"}, op("+", op("*", id("s"), pgNInt(3)), id("v"))))
+	}
+	m := func(recv *pgNode, name string, args ...*pgNode) *pgNode { return pgNMethod("method", recv, name, args...) }
+	mk := func(t *pgNode) *pgProgram {
+		return &pgProgram{T: t, ArgNames: []string{"l", "n"}, Tuples: tuples, Stream: "corpus"}
+	}
+	ab := []string{"a", "b"}
+	mm := func(key string) *pgNode { return pgNMember(id("m"), key) }
+	return []*pgProgram{
+		mk(fp(m(l(), "number", clo([]string{"i", "e"}, op("+", op("*", id("i"), n()), id("e")))))),
+		mk(fp(m(l(), "compact", clo(ab, op("<", id("a"), id("b")))))),
+		mk(fp(m(l(), "compact", clo(ab, op("=", id("a"), id("b")))))),
+		mk(fp(m(l(), "combine", clo(ab, op("-", op("*", id("a"), pgNInt(2)), id("b")))))),
+		mk(fp(m(l(), "combine3", clo([]string{"a", "b", "c"}, op("-", op("+", op("*", id("a"), pgNInt(4)), op("*", id("b"), n())), id("c")))))),
+		mk(fp(m(l(), "combineN", pgNInt(2), clo([]string{"w"}, op("+", op("*", m(id("w"), "first"), pgNInt(10)), m(id("w"), "last")))))),
+		mk(fp(m(l(), "combineN", pgNInt(3), clo([]string{"w"}, op("-", m(id("w"), "sum"), pgNIndex(id("w"), pgNInt(0))))))),
+		mk(fp(m(l(), "iir", clo([]string{"a"}, op("*", id("a"), pgNInt(3))), clo([]string{"i", "la"}, op("-", id("i"), op("*", id("la"), pgNInt(2))))))),
+		mk(fp(m(l(), "iirCombine", clo([]string{"a"}, op("+", id("a"), n())),
+			clo([]string{"li", "i", "la"}, op("-", op("+", op("*", id("li"), pgNInt(4)), op("*", id("i"), pgNInt(2))), id("la")))))),
+		mk(fp(m(l(), "cross", pgNList(pgNInt(1), n()), clo(ab, op("+", op("*", id("a"), pgNInt(10)), id("b")))))),
+		mk(fp(m(l(), "merge", pgNList(pgNInt(0), pgNInt(3), n()), clo(ab, op("<", id("a"), id("b")))))),
+		mk(pgNLet("m", m(l(), "minMax", clo([]string{"x"}, op("*", op("-", id("x"), pgNInt(2)), op("-", id("x"), n())))),
+			pgNList(mm("min"), mm("max"), mm("minItem"), mm("maxItem"), mm("valid")))),
+		mk(pgNList(m(l(), "min"), m(l(), "max"), m(l(), "sum"))),
+		mk(m(m(l(), "top", pgNInt(4)), "mean")), // 4 items (or 1): the mean is an exact float
+		mk(pgNList(m(m(l(), "top", pgNInt(1)), "single"), pgNTry(m(l(), "single"), n()))),
+	}
+}
+
 // ---------- command ----------
 
 func cmdC01(seed int64, tier, outDir string) {
@@ -702,7 +752,7 @@ func cmdC01(seed int64, tier, outDir string) {
 	}
 	n *= optBoost
 	id := 0
-	for _, p := range c01Corpus() {
+	for _, p := range append(c01Corpus(), c01StageCorpus()...) {
 		id++
 		run.runCase(p, id)
 	}
